@@ -22,7 +22,11 @@ for d in sorted(glob.glob('/verif/seeded/*')):
     elif meta.get('detected_by'):
         caught=[meta['detected_by']]
     need=(meta.get('needs_to_manifest','') or '').replace('|','/').replace('\n',' ')[:150]
-    rows.append(f"| {id} | {meta.get('property','')} | {need} | {', '.join(caught) or '—'} | {', '.join(missed) or ''} |")
+    note=meta.get('final_tree_note','')
+    last_col=', '.join(missed) or ''
+    if note:
+        last_col=(last_col+' — ' if last_col else '')+note.replace('|','/')
+    rows.append(f"| {id} | {meta.get('property','')} | {need} | {', '.join(caught) or '—'} | {last_col} |")
 print("| id | property | needs to manifest | caught by (failure class) | quick checks that stay green |")
 print("|---|---|---|---|---|")
 print("\n".join(rows))
